@@ -1,5 +1,5 @@
 #!/usr/bin/env python3
-"""Generates round-2 sub-agent prompts (/tmp/seedwork/prompt2-<PID>.txt): same task as round 1 but
+"""Generates round-N sub-agent prompts (/tmp/seedwork/prompt<N>-<PID>.txt; N from argv, default 2): same task as round 1 but
 listing the mechanisms already tried, and asking for changes a generic random-history tester would
 be unlikely to hit."""
 import json
@@ -26,17 +26,22 @@ TRIED={
 'C19':["`?` on handle_message in the select loop","zero-length UDP datagram treated as fatal","fatal recv error swallowed"],
 'C20':["`contains_reset |=` -> `=`","callback Option taken on first use","callback on every applied delta"],
 }
+R2={'C01': ['apply_delta `break` instead of `continue` on a member unknown to the receiver', 'SYN-ACK delta budget additionally reduced by the cluster id length (exact-fit value never sent when the lagging node initiates)'], 'C02': ['catch-up guard `max_version < last_gc_version()` replaced by a dead condition (catch-up from a stale peer into a mid-reset copy)', "'delta from the future' check relaxed to from > max(max_version, last_gc_version) (delayed SYN-ACK accepted after a truncated reset)"], 'C03': ['manual Ord for ChitchatId ignoring the address', 'catch-up clears the value of TTL entries'], 'C04': ['GC watermark accumulator no longer starts from the current watermark (sub-watermark tombstone from catch-up lowers it)', 'GC clamps last_gc_version to max_version'], 'C05': ["catch-up 'already up to date' gate compares (max_version, last_gc_version) lexicographically (catch-up about own id)", 'remove_node forgets every incarnation sharing the node_id'], 'C06': ['GC grace comparison truncated to whole seconds', 'equal-version overwrite in set_versioned_value (re-marks the deletion instant via catch-up)'], 'C07': ["SYN-ACK budget computed before the digest's heartbeats are reported (digest grows)", 'try_add_kv skips a key-value longer than u16::MAX and continues'], 'C08': ['8 MiB cap on the decompressed stream', 'decoder requires the zstd frame content size'], 'C09': ['foreign cluster id sliced at byte 128 for logging', 'UDP receive treats a 65,507-byte datagram as an error'], 'C10': ['catch-up call reports a heartbeat to the failure detector', 'phi_threshold clamped to >= 1.0 in the constructor'], 'C11': ['catch-up call reports a heartbeat', 'interval == max_interval no longer accepted as a sample'], 'C12': ["scheduled-for-deletion members still sent in deltas when the peer's digest lists them", 'self-removal guard compares node_id only (old generation of the local node never removed)'], 'C13': ['catch-up refreshes the published snapshot in place ignoring the predicate', 'previous_live_nodes keyed by node_id instead of ChitchatId'], 'C14': ['apply_delta `break` on unknown member', "process_delta drops the self-related part of a delta that would reset the node's own state"], 'C15': ['reset_node rebuilds the state with an empty listener set', 'ListenerHandle::drop uses try_write'], 'C16': ['UDP send buffer not cleared after a failed send (stale SYN-ACK sent instead of BadCluster)', 'cluster id separators normalised at construction'], 'C17': ['one failing send aborts the rest of the gossip round', 'scheduled-for-deletion peers removed from the dead candidates'], 'C18': ['previous key set built from visible keys only (stale tombstones survive)', 'supplied tombstones at or below the supplied watermark skipped'], 'C19': ['UDP send buffer cleared only after a successful send', 'state lock held across the reply send (guard temporary in `if let`)'], 'C20': ['early `return false` in apply_delta on an unknown member', "'max_version unchanged means rejected' shortcut skips the reset bookkeeping"]}
+import sys
+N=sys.argv[1] if len(sys.argv)>1 else '2'
+if N!='2':
+    for k in TRIED: TRIED[k]=TRIED[k]+R2[k]
 tmpl=open('/verif/tools/seed_prompt_template.txt').read()
 for pid,p in props.items():
-    wt=f'/tmp/seedwork/wt2-{pid}'; out=f'/tmp/seedwork/out2-{pid}'
+    wt=f'/tmp/seedwork/wt{N}-{pid}'; out=f'/tmp/seedwork/out{N}-{pid}'
     extra='''
 
 ALREADY TRIED — earlier attempts used the following mechanisms; do NOT repeat them or close variants of them, find something in a DIFFERENT place or of a different nature:
 '''+'\n'.join('- '+t for t in TRIED[pid])+'''
 
-AIM FOR SUBTLETY — assume the change will be hunted by an automated tester that generates many thousands of random histories of a few dozen steps on 2-5 in-process nodes (random writes/deletes over a small alphabet of short keys and values plus some 20-45 KB values, message loss/duplication/reordering, partitions, clock jumps around the configured grace periods, crashes/restarts) and random/boundary inputs for the codecs, and that compares every node's state with a reference after every step. Prefer a change whose trigger such a tester would plausibly NOT reach by chance: a rare coincidence of values, a long or very specific sequence, a configuration corner, a size/encoding corner, a third code path (e.g. the catch-up entry point, the server loop, the watch stream, the snapshot/serde path, the listener API, the UDP transport) rather than the main gossip path, or an effect that is only observable through an API other than the node state. It must still be a genuine violation of the property as stated.
+AIM FOR SUBTLETY — assume the change will be hunted by an automated tester that generates many thousands of random and phased histories of a few dozen steps on 2-5 in-process nodes (random writes/deletes over a small alphabet of short keys and values plus some 20-45 KB values, message loss/duplication/reordering/delay, partitions, clock jumps around the configured grace periods, crashes/restarts, external catch-up calls, tombstone GC at any node), boundary-directed inputs for the codecs and size budgets, a scripted transport for the server loop and a loopback UDP smoke test, and that compares every node's state with a reference after every step. Prefer a change whose trigger such a tester would plausibly NOT reach by chance: a rare coincidence of values, a long or very specific sequence, a configuration corner, a size/encoding corner, a third code path (e.g. the catch-up entry point, the server loop, the watch stream, the snapshot/serde path, the listener API, the UDP transport) rather than the main gossip path, or an effect that is only observable through an API other than the node state. It must still be a genuine violation of the property as stated.
 '''
     text=tmpl.format(wt=wt,out=out,pid=pid,title=p['title'],statement=p['statement'],quant=p['quantifier']['text'])
     text=text.replace('DELIVERABLES —', extra+'\nDELIVERABLES —')
-    open(f'/tmp/seedwork/prompt2-{pid}.txt','w').write(text)
+    open(f'/tmp/seedwork/prompt{N}-{pid}.txt','w').write(text)
 print('ok')
